@@ -21,7 +21,7 @@ import (
 func (ni *nodeInc) main() {
 	run := ni.run
 	defer func() { ni.exited = true }()
-	if err := SetIdentity(ni.dir, simCID, ni.node.id); err != nil {
+	if err := SetIdentity(ni.dir, ni.node.cid, ni.node.id); err != nil {
 		ni.newErr = err
 		run.led.onStartFailed(ni, "SetIdentity", err)
 		return
@@ -42,6 +42,13 @@ func (ni *nodeInc) main() {
 	}
 	run.raftOf[r] = ni
 	ni.r = r
+	if ni.node.decoy {
+		if ni.dead {
+			r.doClose(ErrServerClosed)
+		}
+		ni.serveErr = r.Serve(ni.listener)
+		return
+	}
 	run.led.onStarted(ni)
 	if ni.dead {
 		r.doClose(ErrServerClosed)
@@ -391,6 +398,61 @@ func (a *admin) member() {
 		w := WaitForStableConfig()
 		a.submit(ni, w, "waitstable", 40*run.cfg.HB)
 	}
+}
+
+// intruder: a second instance tries to use a storage directory that is being
+// served, or tries to give it another identity (C20).
+func (a *admin) intruder() {
+	run := a.run
+	t := run.tape
+	var cands []*nodeInc
+	for _, n := range run.nodes {
+		if n.inc != nil && !n.inc.dead && !n.inc.exited {
+			cands = append(cands, n.inc)
+		}
+	}
+	if len(cands) == 0 {
+		return
+	}
+	ni := cands[t.Choose(rt.StPlan, len(cands))]
+	if t.Chance(rt.StPlan, 1, 3) {
+		// change of identity
+		err := SetIdentity(ni.dir, ni.node.cid+7, ni.node.id+3)
+		run.led.onSetIdentityAttempt(ni, err)
+		return
+	}
+	served := ni.r != nil && ni.mainG != nil // the first instance has at least reached Serve's lock
+	fsm := &recFSM{inc: &nodeInc{run: run, node: ni.node, dead: true}}
+	r2, err := New(run.simOptions(), fsm, ni.dir)
+	if err != nil {
+		run.led.onIntruder(ni, served, "new", err)
+		return
+	}
+	lst, lerr := run.net.Listen(nil, fmt.Sprintf("x%d:7000", run.sim.Steps))
+	if lerr != nil {
+		return
+	}
+	done := false
+	var serr error
+	q := &rt.WaitQ{}
+	run.sim.Spawn("intruder-serve", ni.nc, func() {
+		serr = r2.Serve(lst)
+		done = true
+		q.Wake()
+	})
+	deadline := time.Now().Add(4 * run.cfg.HB)
+	for !done && time.Now().Before(deadline) {
+		time.Sleep(run.cfg.HB / 4)
+	}
+	if !done {
+		// it is serving: two instances on one directory
+		run.led.onIntruder(ni, served, "serving", nil)
+		_ = r2.Shutdown(context.Background())
+		return
+	}
+	_ = lst.Close()
+	run.led.onIntruder(ni, served, "serve", serr)
+	_ = r2.storage.log.Close()
 }
 
 // monitor polls every node's status report through the task API (C19).
